@@ -83,8 +83,18 @@ def build(desc):
     import numpy as np
     import sparse
 
-    d = np.array(desc["dense"], dtype=desc.get("dtype", "int64")).reshape(desc["shape"])
     fmt = desc.get("format", "coo")
+    if "coords" in desc:
+        # an array given by its coordinate dictionary (astronomically long axes: no dense form exists); coords: one list per stored entry, sorted
+        nd = len(desc["shape"])
+        c = np.array(desc["coords"], dtype=np.int64).reshape(len(desc["data"]), nd).T
+        x = sparse.COO(c, np.array(desc["data"], dtype=desc.get("dtype", "int64")), shape=tuple(desc["shape"]), has_duplicates=False, sorted=True)
+        if fmt == "dok":
+            x = sparse.DOK.from_coo(x)
+        elif fmt == "gcxs":
+            x = sparse.GCXS.from_coo(x, compressed_axes=desc.get("ca"))
+        return x, None
+    d = np.array(desc["dense"], dtype=desc.get("dtype", "int64")).reshape(desc["shape"])
     if fmt == "dense":
         return d, d
     if fmt in ("csr", "csc"):
@@ -222,6 +232,9 @@ def table():
 
     # ---- indexing -----------------------------------------------------------------------------------------------
     add("x[idx]", operator.getitem, operator.getitem, fam="getitem")
+    # the same on arrays that have no dense form: the result comes back as its coordinate dictionary (case "value": true), the reference is
+    # computed by the harness from the coordinate dictionary of the operand
+    add("xlong[idx]", lambda x, idx: _long_json(x[idx]), None, fam="getitem-long")
     add("dok[idx]=v", _dok_set, _np_set, fam="setitem")
     add("sparse.take", sparse.take, np.take, fam="take", public="take")
     add("sparse.nonzero", sparse.nonzero, np.nonzero, fam="search", public="nonzero")
@@ -413,6 +426,10 @@ def _contract_gcxs(arg, shape=None, compressed_axes=None, **k):
     data, indices, indptr = (np.asarray(a) for a in arg)
     if shape is None:
         _reject("shape missing")
+    # index arrays hold integers (any width, signed or not; a bool array is read as 0/1 by NumPy and is not judged)
+    nd_ = 1 if _is_int(shape) else len(tuple(shape))
+    if (nd_ >= 1 and indices.size and indices.dtype.kind not in "iub") or (nd_ >= 2 and indptr.dtype.kind not in "iub"):
+        _reject("index dtype")
     shp = (shape,) if _is_int(shape) else tuple(shape)
     if not all(_is_int(s) and s >= 0 for s in shp):
         _reject("shape")
@@ -430,12 +447,25 @@ def _contract_gcxs(arg, shape=None, compressed_axes=None, **k):
         cols = int(np.prod([s for i, s in enumerate(shp) if i not in ca]))
         if indptr.ndim != 1 or len(indptr) != rows + 1 or indptr[0] != 0 or indptr[-1] != len(indices):
             _reject("indptr")
-        if (np.diff(indptr) < 0).any():
+        if (indptr[1:] < indptr[:-1]).any():      # a comparison of stored values: np.diff would wrap for unsigned dtypes
             _reject("indptr decreasing")
         if len(indices) and (indices.min() < 0 or indices.max() >= cols):
             _reject("indices out of range")
     elif len(shp) == 1 and len(indices) and (indices.min() < 0 or indices.max() >= shp[0]):
         _reject("indices out of range")
+
+
+def _long_json(r):
+    import numpy as np
+    import sparse
+
+    if isinstance(r, sparse.SparseArray):
+        c = r if isinstance(r, sparse.COO) else (r.tocoo() if isinstance(r, sparse.GCXS) else r.asformat("coo"))
+        return {"type": type(r).__name__, "shape": [int(v) for v in c.shape], "coords": [[int(v) for v in col] for col in c.coords.T.tolist()] if c.ndim else [[] for _ in range(c.nnz)],
+                "data": [int(v) for v in c.data.tolist()], "fill": int(c.fill_value)}
+    if isinstance(r, np.ndarray):
+        return {"type": "ndarray", "shape": list(r.shape), "data": [int(v) for v in r.ravel()[:64]]}
+    return {"type": "scalar", "data": int(r)}
 
 
 def _kernel_slicing_selection(indices, starts, ends, col):
@@ -596,11 +626,14 @@ def execute(case, emit):
         emit({"id": cid, "phase": "ref", **refinfo})
         # ---- the call ----
         t0 = time.perf_counter()
+        c0 = time.process_time()
+        cpu = None
         try:
             a = dec(case.get("args", []), xs, ds)
             k = {kk: dec(v, xs, ds) for kk, v in case.get("kwargs", {}).items()}
             r = ent["impl"](*a, **k)
             el = time.perf_counter() - t0
+            cpu = time.process_time() - c0
             nnz_out, ext_out = sizes(r)
             out = {"out": "ok", "result": result_summary(r), "nnz_out": nnz_out, "ext_out": ext_out}
             if case.get("value"):
@@ -617,7 +650,7 @@ def execute(case, emit):
         except Exception as e:  # noqa: BLE001
             el = time.perf_counter() - t0
             out = {"out": "err", **describe_exc(e)}
-    emit({"id": cid, "phase": "done", "elapsed": round(el, 6), "nnz_in": nnz_in, "ext_in": ext_in, **refinfo, **out})
+    emit({"id": cid, "phase": "done", "elapsed": round(el, 6), "cpu": None if cpu is None else round(cpu, 6), "nnz_in": nnz_in, "ext_in": ext_in, **refinfo, **out})
 
 
 # ---- time regression ---------------------------------------------------------------------------------------------
@@ -694,6 +727,14 @@ def main():
         case = json.loads(line)
         if case.get("op") == "__quit__":
             break
+        if case.get("op") == "__calibrate__":
+            try:
+                import loadtol
+
+                emit({"id": case.get("id"), "phase": "done", "out": "ok", **loadtol.reference()})
+            except Exception as e:  # noqa: BLE001
+                emit({"id": case.get("id"), "phase": "done", "out": "err", **describe_exc(e)})
+            continue
         if case.get("op") == "__timing__":
             try:
                 emit({"id": case.get("id"), "phase": "done", "out": "ok", **timing(case["spec"])})
